@@ -4,6 +4,8 @@
 -/
 import MitmVerif.Lemmas.C26Msg
 import MitmVerif.Lemmas.C26Hist
+import MitmVerif.Lemmas.C26Live
+import MitmVerif.Props.C25
 import MitmVerif.Props.C27
 set_option linter.unusedVariables false
 set_option linter.unusedSimpArgs false
@@ -29,6 +31,7 @@ def exampleForwardOk : Bool :=
   | _ => false
 
 example : exampleForwardOk = true := by decide +kernel
+example : liveCheck exampleResponse = true := by decide +kernel
 -- the specification rejects forward pointers and truncated records; the layer closes on a parse error
 example : DnsRef.decode [0,1,1,0,0,1,0,0,0,0,0,0, 0xc0,0x0e, 0,1,0,1] = none := by decide +kernel
 example : forwardUdp noIdna [0,1,1,0,0,1,0,0,0,0,0,0, 0xc0,0x0c, 0,1,0,1] = .done [] true := by decide +kernel
@@ -54,6 +57,12 @@ example : recvRun hCfg (C27.init [] []) hEvents = ([hq1, hq2], [hr2, hr1]) := by
 example : ((C27.run hCfg (C27.init [] []) hEvents).2.filterMap
       (fun o => match o with | .toClient _ w => some (DnsRef.decode (w.drop 2)) | _ => none)) =
     [DnsRef.decode hr2, DnsRef.decode hr1] := by decide +kernel
+
+-- the hypotheses of `deliverable_is_forwarded` hold for the example response (labels a, io, mx, W are plain; the deepest
+-- pointer chain of the buffer has 2 hops)
+example : (DnsRef.decode exampleResponse).map (fun d => d.questions.all (fun q => plainLabels q.labels) &&
+    (d.answers ++ d.authorities ++ d.additionals).all (fun r => plainLabels r.labels && decide (r.rdata.length ≤ 65535))) = some true ∧
+    (List.range exampleResponse.length).all (fun off => decide (hops exampleResponse off ≤ 2)) = true := by decide +kernel
 
 /-! ### the theorems -/
 
@@ -330,5 +339,106 @@ theorem compressed_name_read (buf : Bytes) (off t : Nat) (ls1 ls2 : List Bytes) 
 
 -- 14 bits: a pointer "to 16384 + 12" is a pointer to 12
 example : ptrBytes (16384 + 12) = ptrBytes 12 ∧ ptrBytes 16383 ≠ ptrBytes 0 := by decide
+
+/-! ### round 5: delivery (the clause "is delivered to the other side"), and C25's re-encoding clause for every
+    message the specification reads -/
+
+/-- **C26 (a readable plain message is delivered, UDP).** If the specification decoder reads the datagram, its owner
+    and question names consist of plain labels (ASCII, no dot, no `xn--`: exactly the labels for which the codec model
+    does not consult the idna parameter), its canonical record data fits the 16-bit length field and no pointer chain
+    of the buffer is deeper than the decoder's nesting limit (127), then `DNSLayer` does forward it — one datagram,
+    connection left open — and the specification reads the forwarded datagram identically. For every idna codec. -/
+theorem deliverable_is_forwarded (I : Idna) (b : Bytes) (d : DnsRef.RMsg) (hd : DnsRef.decode b = some d)
+    (hp : Plain d) (hsh : Shallow b) :
+    ∃ b', forwardUdp I b = .done [b'] false ∧ DnsRef.decode b' = some d := by
+  obtain ⟨m, hu⟩ := unpack_live I b d hd hp hsh
+  obtain ⟨b', hpk⟩ := decoded_message_encodes I b m hu
+  exact ⟨b', by simp [forwardUdp, hu, hpk], repack_preserves I b b' d m hd hu hpk⟩
+
+/-- the same with the precondition as a computation (`liveCheck`, tied to its Python twin): whatever passes the check is
+    forwarded -/
+theorem live_checked_is_forwarded (I : Idna) (b : Bytes) (h : liveCheck b = true) :
+    ∃ b', forwardUdp I b = .done [b'] false ∧ DnsRef.decode b' = DnsRef.decode b := by
+  unfold liveCheck at h
+  cases hd : DnsRef.decode b with
+  | none => simp [hd] at h
+  | some d =>
+    simp only [hd, Bool.and_eq_true] at h
+    obtain ⟨b', h1, h2⟩ := deliverable_is_forwarded I b d hd (plain_of_check d h.1) (shallow_of_check b h.2)
+    exact ⟨b', h1, h2⟩
+
+private theorem unpackAll_live (I : Idna) : ∀ (bs : List Bytes) (ds : List DnsRef.RMsg),
+    Rel2 (fun b d => DnsRef.decode b = some d ∧ Plain d ∧ Shallow b) bs ds → (unpackAll I bs).2 = false := by
+  intro bs ds h
+  induction h with
+  | nil => rfl
+  | @cons b d bs ds hbd _ ih =>
+    obtain ⟨m, hu⟩ := unpack_live I b d hbd.1 hbd.2.1 hbd.2.2
+    simp [unpackAll, hu, ih]
+
+/-- **C26 (readable plain messages are delivered, TCP).** A segment of complete frames, each as in
+    `deliverable_is_forwarded`: one frame per message is sent, in order, each read identically by the specification,
+    and the connection stays open. -/
+theorem deliverable_is_forwarded_tcp (I : Idna) (bs : List Bytes) (ds : List DnsRef.RMsg)
+    (hb : ∀ b ∈ bs, 0 < b.length ∧ b.length < 65536)
+    (hrel : Rel2 (fun b d => DnsRef.decode b = some d ∧ Plain d ∧ Shallow b) bs ds) :
+    ∃ bs', forwardTcp I (bs.flatMap frame) = .done (bs'.map frame) false ∧
+      Rel2 (fun b' d => DnsRef.decode b' = some d) bs' ds := by
+  have hrel' : Rel2 (fun b d => DnsRef.decode b = some d) bs ds := by
+    clear hb
+    induction hrel with
+    | nil => exact Rel2.nil
+    | cons h _ ih => exact Rel2.cons h.1 ih
+  have hopen := unpackAll_live I bs ds hrel
+  cases hf : forwardTcp I (bs.flatMap frame) with
+  | crashed => exact absurd hf (forward_never_crashes_tcp I _)
+  | done outs closed =>
+    have hclosed : closed = false := by
+      have := hf
+      unfold forwardTcp at this
+      rw [tcpFrames_frames bs _ hb (Nat.le_refl _)] at this
+      simp only at this
+      cases ho : mapM' (pack I) (unpackAll I bs).1 with
+      | none => simp [ho] at this
+      | some packed => simp [ho, hopen] at this; exact this.2
+    obtain ⟨bs', ds1, ds2, ho, hsplit, hr, hall⟩ := forward_preserves_tcp I bs ds outs closed hb hrel' hf
+    have : ds2 = [] := hall hclosed
+    subst this
+    simp only [List.append_nil] at hsplit
+    subst hsplit
+    exact ⟨bs', by rw [ho, hclosed], hr⟩
+
+private theorem Rel2.mem_left' {α β : Type} {R : α → β → Prop} {as : List α} {bs : List β} (h : Rel2 R as bs) :
+    ∀ a ∈ as, ∃ b ∈ bs, R a b := by
+  induction h with
+  | nil => intro a ha; cases ha
+  | cons hab _ ih =>
+    intro a ha
+    rcases List.mem_cons.mp ha with rfl | ha
+    · exact ⟨_, by simp, hab⟩
+    · obtain ⟨b, hb, hr⟩ := ih a ha; exact ⟨b, by simp [hb], hr⟩
+
+/-- **C25's last clause for every message the specification reads.** If the specification decoder reads `b` and the
+    codec decodes `b` as `m`, then `m` re-encodes and the re-encoding decodes to `m` again — no `rdataPlain` guard:
+    the record data of such a message is the specification's canonical RDATA, which is plain (`rdata_plain`), so
+    findings F-C25a/c concern only messages the specification does not read. -/
+theorem spec_readable_reencode_stable (I : Idna) (b : Bytes) (d : DnsRef.RMsg) (m : Msg)
+    (hd : DnsRef.decode b = some d) (hu : unpack I b = some m) :
+    ∃ b', pack I m = some b' ∧ unpack I b' = some m := by
+  have hrel := decode_agree hd hu
+  have hplain : ∀ (rs : List RR) (rrs : List DnsRef.RRec), Rel2 (RRel I) rs rrs → ∀ r ∈ rs, rdataPlain r.type r.data = true := by
+    intro rs rrs h r hr
+    obtain ⟨rr, _, hrr⟩ := Rel2.mem_left' h r hr
+    have hc := hrr.canon rr.rdata 0 [] (by simp)
+    rw [hrr.type, hrr.data]
+    exact rdata_plain hc (by simp)
+  apply Props.C25.reencode_stable_partial I b m hu
+  intro r hr
+  simp only [Props.C25.records] at hr
+  rcases List.mem_append.mp hr with hr | hr
+  · rcases List.mem_append.mp hr with hr | hr
+    · exact hplain _ _ hrel.an r hr
+    · exact hplain _ _ hrel.ns r hr
+  · exact hplain _ _ hrel.ar r hr
 
 end MitmVerif.Props.C26
